@@ -428,11 +428,15 @@ def processSection (o : Options) (format : Format) : DM Bool := do
     let mut writeToFile := !o.dryRun
     if o.removeEmptyFiles == .yes && patch.operation == .delete then
       if outBytes.isEmpty then
-        -- only a patch which was applied removes the file: if it was skipped or failed there was nothing in the file to begin with (D110)
-        if !o.dryRun && !r.skipped && r.failed == 0 then
-          if shouldBackup then makeBackupFor o outputFile
-          if (← fsExists outputFile) then removeFileAndEmptyParents outputFile
-        writeToFile := false
+        -- only a patch which was applied removes the file (D110); if it was skipped or some of it failed the result is written as that of
+        -- any other patch (it may be what is left by the hunks which did apply), unless there is no file at all (D111)
+        if !r.skipped && r.failed == 0 then
+          if !o.dryRun then
+            if shouldBackup then makeBackupFor o outputFile
+            if (← fsExists outputFile) then removeFileAndEmptyParents outputFile
+          writeToFile := false
+        else if !(← fsExists outputFile) then
+          writeToFile := false
       else if patch.newPath == devNull then
         emit .notDeleting; failNow
     if writeToFile then
